@@ -3,7 +3,10 @@ package main
 import (
 	"encoding/json"
 	"fmt"
+	"regexp"
 	"strings"
+
+	"gopkg.in/yaml.v3"
 
 	pipeline "github.com/buildkite/go-pipeline"
 	"verifharness/sx"
@@ -27,6 +30,9 @@ func c17refOK(s string) bool {
 }
 
 var c17parseN int
+
+var c17plainSafe = regexp.MustCompile(`^[A-Za-z0-9][A-Za-z0-9._/#@-]*$`)
+var c17dateLike = regexp.MustCompile(`^[0-9]{1,4}-[0-9]{1,2}-[0-9]{1,2}`)
 
 func c17one(s string, want string, form string) {
 	c := sx.A(s)
@@ -67,6 +73,32 @@ func c17one(s string, want string, form string) {
 						return
 					}
 					stat("C17", "through-parse")
+				}
+			}
+		}
+	}
+	// ... also when it is written as a plain YAML mapping key (the usual way to write a plugin with a config);
+	// only spellings that YAML reads as text or as a date, not as a number or boolean
+	if (c17parseN%7 == 0 || c17dateLike.MatchString(s)) && c17plainSafe.MatchString(s) {
+		var probe yaml.Node
+		if yaml.Unmarshal([]byte(s+": x\n"), &probe) == nil && len(probe.Content) == 1 && probe.Content[0].Kind == yaml.MappingNode && len(probe.Content[0].Content) == 2 {
+			if tag := probe.Content[0].Content[0].ShortTag(); (tag == "!!str" || tag == "!!timestamp") && probe.Content[0].Content[0].Value == s {
+				for fi, doc := range []string{"steps:\n- command: c\n  plugins:\n  - " + s + ": {k: v}\n", "steps:\n- command: c\n  plugins:\n    " + s + ": ~\n"} {
+					p, perr := pipeline.Parse(strings.NewReader(doc))
+					if perr != nil {
+						oracleFail("C17", "yaml-source-rejected", c, fmt.Sprintf("Parse rejects %q: %v", doc, perr))
+						return
+					}
+					cs, ok := p.Steps[0].(*pipeline.CommandStep)
+					if !ok || len(cs.Plugins) != 1 {
+						oracleFail("C17", "yaml-source-rejected", c, fmt.Sprintf("Parse of %q gives %T", doc, p.Steps[0]))
+						return
+					}
+					if cs.Plugins[0].Source != s || cs.Plugins[0].FullSource() != got {
+						oracleFail("C17", "parsed-source", c, fmt.Sprintf("plugin written as the YAML key %s has Source %q / FullSource %q; FullSource of the written name is %q", s, cs.Plugins[0].Source, cs.Plugins[0].FullSource(), got))
+						return
+					}
+					stat("C17", fmt.Sprintf("through-yaml-key-form%d", fi))
 				}
 			}
 		}
@@ -138,6 +170,10 @@ func init() {
 		for i := 0; i < n; i++ {
 			name, org, ref := c17name(rng), c17name(rng), c17ref(rng)
 			// names that already carry (part of) the suffix, or are the suffix: the expansion appends it regardless
+			// names shaped like dates and versions are names
+			if rng.Chance(4) {
+				name = sx.Pick(rng, []string{"2024-01-01", "2001-12-14", "2002-1-2", "1999-12-31", "1-2-3", "2024-01", "v1.2.3"})
+			}
 			if rng.Chance(12) {
 				name = sx.Pick(rng, []string{name + "-buildkite-plugin", "buildkite-plugin", name + "-buildkite-plugin-x", "-buildkite-plugin", name + "-buildkite"})
 			}
